@@ -13,7 +13,7 @@ SLAVES = [0x08, 0x15, 0x25, 0x52]
 
 def gen_plain(rng, i):
     typ = rng.choice(['r', 'w'])
-    idb = bytes(rng.randrange(256) for _ in range(rng.randrange(0, 5)))
+    idb = bytes(rng.randrange(256) for _ in range(rng.choice([0, 1, 2, 2, 3, 3, 4, 4, 5, 6, 7])))
     nm = rng.randrange(0, 4)
     ns = rng.randrange(0, 4) if typ == 'r' else 0
     zzk = rng.random()
@@ -41,7 +41,8 @@ def gen_chain(rng, i):
     nparts = rng.randrange(2, 5)
     prefix = bytes(rng.randrange(256) for _ in range(rng.randrange(0, 3)))
     suff = rng.sample(range(256), nparts)
-    ids = [prefix + bytes([s]) for s in suff]
+    tail = bytes(rng.randrange(256) for _ in range(rng.choice([0, 0, 1, 2])))    # the parts may differ in a byte that is not the last one
+    ids = [prefix + bytes([s]) + tail for s in suff]
     lens = [rng.randrange(1, 6) for _ in range(nparts)]
     explicit = rng.random() < 0.7 or typ == 'w'   # write chains need explicit part lengths
     total = sum(lens)
@@ -73,8 +74,14 @@ def shard(args):
         now = 1700000000 + di * 1000
         lines = ['TIME\t%d' % now, 'NEW\tm\t0']
         line = chain_line(d) if chain else plain_line(d)
-        # a colliding neighbour definition with the same PBSB and a shorter/longer id keeps find() honest
-        lines.append('LOAD\tm\t' + esc('\n' + line + '\n'))
+        # a neighbour definition with the same PBSB/ZZ and another, longer id keeps find() honest (keys of long ids are folded,
+        # and the probing starts at the longest id length in the map)
+        nbline = ''
+        if not chain and rng.random() < 0.7:
+            nid = (bytes([d['id'][0] ^ 0x5a]) if d['id'] else b'') + bytes(rng.randrange(256) for _ in range(rng.randrange(4, 7)))
+            npbsb = d['pbsb'] if d['id'] else 'b5aa'
+            nbline = '\n%s,cc,nb,,,%s,%s,%s,x,,UCH' % (d['type'], d['zz'], npbsb, nid.hex())
+        lines.append('LOAD\tm\t' + esc('\n' + line + nbline + '\n'))
         if not chain:
             mvals = [rng.choice(f['values']) for f in d['fields'] if f['part'] == 'm']
             svals = [rng.choice(f['values']) for f in d['fields'] if f['part'] == 's']
@@ -126,7 +133,7 @@ def shard(args):
                     viol.append(('slave-nn-wrong', '%r -> slave %s expected NN %d' % (line, s.hex(), slen)))
                     continue
             # second batch: fresh map (nothing cached), find + store via the passive path + decode
-            lines2 = ['TIME\t%d' % now, 'NEW\tm\t0', 'LOAD\tm\t' + esc('\n' + line + '\n'),
+            lines2 = ['TIME\t%d' % now, 'NEW\tm\t0', 'LOAD\tm\t' + esc('\n' + line + nbline + '\n'),
                       'FIND\tm\t%s\t0\t1\t1\t1\t1' % m.hex(), 'STOREM\tm\t%s\t%s' % (m.hex(), s.hex()),
                       'DECODE\tm\tcc\t%s\t%d\t0\t0' % (d['name'], d['type'] == 'w')]
             rc, out2, err = run_server(exe, lines2)
